@@ -29,9 +29,9 @@ WATCHDOG = {"quick": 900, "thorough": 3600}
 
 
 def plan(tier, seed):
-    n = 900 if tier == "quick" else 30000
+    n = 3000 if tier == "quick" else 40000
     cases = [{"mode": ("sim", "sim", "live")[i % 3], "seed": seed, "idx": i} for i in range(n)]
-    nt = 12 if tier == "quick" else 200
+    nt = 24 if tier == "quick" else 300
     cases += [{"mode": "threads", "seed": seed, "idx": i, "rounds": 5} for i in range(nt)]
     return cases
 
